@@ -9,7 +9,7 @@
    (x, x' range over ALL functions nat -> nat -> Z, not only over matrices). *)
 From Coq Require Import List ZArith Lia Bool.
 Import ListNotations.
-Require Import CV.LpCert CV.Ssp CV.SspProofs CV.SspSafety CV.SspF CV.SspTree CV.SspOpt CV.SspTotal.
+Require Import CV.LpCert CV.Ssp CV.SspProofs CV.SspSafety CV.SspF CV.SspTree CV.SspOpt CV.SspTotal CV.SspFuelCex.
 Local Open Scope Z_scope.
 
 (* [F] Soundness of the LP certificate checker, for all problems, plans and potentials: whenever the
@@ -37,13 +37,11 @@ Proof. exact solve_checked_sound. Qed.
    feasible -- every source fully allocated, no sink above its capacity, no negative allocation --
    whatever the tie-breaking inside the queues did.  No hypothesis on total demand/capacity: when
    demand exceeds capacity the model cannot return a plan.
-   _partial: the full statement of C13 for the raw algorithm is
-        check_pb pb = true -> total_demand pb <= total_capacity pb -> ssp_correct pb
-   (a plan IS returned and it is of minimum cost).  Not proved for all inputs: (i) termination of
-   updateTree's label-correcting loop and of the chain walks, and the absence of assertion
-   failures / top() on an empty queue, (ii) minimality without the checker.  Both rest on the
-   successive-shortest-path optimality invariant (no negative cycle among the moving costs), which
-   is not proved here; see c13_optimal_bounded and the per-run validation. *)
+   _partial: this theorem states feasibility only.  The rest of C13 for the raw algorithm -- a plan IS
+   returned and it is of minimum cost -- is c13_ssp_optimal (minimality of every returned plan, all
+   inputs) and c13_sspF_total (termination + optimality with a sufficient round budget for updateTree),
+   further down; c13_tree_fuel_insufficient shows why "ssp returns" cannot be stated for the fixed
+   budget of Ssp.v. *)
 Theorem c13_ssp_feasible_partial :
   forall pb x, check_pb pb = true -> ssp pb = Ok x -> pb_feasible pb (plan_f x).
 Proof. exact ssp_feasible_checked. Qed.
@@ -56,8 +54,10 @@ Proof. exact ssp_feasible_checked. Qed.
    with a non-zero allocation there and have such a source on top), Tinv (sinkParent_ points from full sinks to
    sinks of finite sendingCost_; a parentless sink of finite cost has spare capacity; free sinks cost 0), and the
    accounting "outstanding demand <= sum of remainingCapa_".
-   _partial: the remaining gap to the full statement is (i) termination of updateTree's label-correcting loop and
-   of the two chain walks (fuel ids 483, 519, 532; 464 is excluded by the next theorem) and (ii) minimality. *)
+   _partial: this theorem leaves open (i) termination of updateTree's label-correcting loop and of the two chain
+   walks (fuel ids 483, 519, 532; 464 is excluded by the next theorem) and (ii) minimality.  Both are settled by
+   c13_ssp_optimal, c13_ssp_returns_or_tree_fuel_partial and c13_sspF_total below (519 and 532 never run out; 483
+   does not run out with the budget big_fuel; every returned plan is optimal). *)
 Theorem c13_ssp_safe_partial :
   forall pb, check_pb pb = true -> (forall j i, 0 <= cost pb j i < INT_MAX) ->
   total_demand pb <= total_capacity pb ->
@@ -91,12 +91,13 @@ Proof. exact send_loop_never_out_of_fuel. Qed.
 (* [F] MINIMUM COST of the raw algorithm, all inputs of C13's domain, no size bound, no checker: every plan the
    line-by-line model of run() returns is feasible and costs no more than any feasible plan (plans = arbitrary
    functions nat -> nat -> Z).  pb_optimal pb (plan_f x) unfolds to
-     pb_feasible pb (plan_f x) /\ forall x', pb_feasible pb x' -> plan_cost pb x <= pb_cost pb x'. *)
+     pb_feasible pb (plan_f x) /\ forall x', pb_feasible pb x' -> plan_cost pb x <= pb_cost pb x'.
+   No hypothesis on total demand vs capacity is needed: a returned plan is feasible (c13_ssp_feasible_partial), and a
+   feasible plan exists only when total demand <= total capacity (feasible_balanced). *)
 Theorem c13_ssp_optimal :
   forall pb x, check_pb pb = true -> (forall j i, 0 <= cost pb j i < INT_MAX) ->
-  total_demand pb <= total_capacity pb ->
   ssp pb = Ok x -> pb_optimal pb (plan_f x).
-Proof. exact ssp_optimal. Qed.
+Proof. exact ssp_optimal_checked. Qed.
 
 (* [F for what it states / P for "a plan IS returned by ssp"] on C13's domain the model ssp returns a plan, and
    that plan is optimal -- unless the round budget  tree_fuel n = n^3 + 2n + 1  that Ssp.v gives the `while (true)`
@@ -140,6 +141,20 @@ Theorem c13_sspF_outcomes :
   | Fail e => e = EFuel 483%nat /\ ~ (big_fuel (nsnk pb) <= tf (nsnk pb))%positive
   end.
 Proof. exact sspF_spec. Qed.
+
+(* [F] (witness) the budget n^3 + 2n + 1 of Ssp.v is NOT sufficient: a problem of C13's domain with 12 sinks and 11
+   sources on which the line-by-line model ssp stops in updateTree's loop (2049 rounds needed, 1753 allowed), while
+   with the proved budget the same definitions return the (optimal, c13_sspF_total) plan "source i -> sink 11 - i".
+   So "forall pb in the domain, exists x, ssp pb = Ok x" is FALSE for Ssp.v as it stands -- a limitation of the
+   model's constant, not of the C++: the real code returns this plan (replayed through harness/transp.cpp, cost 23628 =
+   the lemon optimum).  The family behind it (SspFuelCex.v) makes updateTree take 2^(number of full sinks) rounds. *)
+Theorem c13_tree_fuel_insufficient :
+  check_pb cex_pb = true /\ (forall j i, 0 <= cost cex_pb j i < INT_MAX) /\
+  total_demand cex_pb <= total_capacity cex_pb /\
+  ssp cex_pb = Fail (EFuel 483) /\
+  sspF big_fuel cex_pb =
+    Ok (map (fun j => map (fun i => if (j + i =? 11)%nat then 1 else 0) (seq 0 11)) (seq 0 12)).
+Proof. exact tree_fuel_insufficient. Qed.
 
 (* [B] Bounded theorem: on each of the explicit finite domains below -- exactly ns sinks and nr
    sources, capacities 1..maxc, demands 1..maxd, costs 0..maxk, total demand <= total capacity --
@@ -276,3 +291,4 @@ Print Assumptions c13_ssp_returns_or_tree_fuel_partial.
 Print Assumptions c13_ssp_is_sspF.
 Print Assumptions c13_sspF_total.
 Print Assumptions c13_sspF_outcomes.
+Print Assumptions c13_tree_fuel_insufficient.
